@@ -117,15 +117,54 @@ def cotangent(ctx):
         n += 1
         _, pos, _ = call_parts(vj[0])
         f0 = pos[0]
+        primals = list(pos[1:])
+        hparams = [x.name for x in hf.params if x.name != "self"]
+        # the differentiated function is the helper itself, or a wrapper (lambda / partial / local def) that fixes some
+        # of the helper's arguments: either way every helper parameter receives a primal or a captured value, and the
+        # cotangent index counts the primals
+        full: dict = {}
+        diff_index: dict = {}
         callee_ok = f0.op == "attr" and f0.args[1] == helper
+        if callee_ok:
+            for i, (h_, v_) in enumerate(zip(hparams, primals)):
+                full[h_], diff_index[h_] = v_, i
+            okn = len(primals) == len(hparams)
+        elif f0.op == "closure":
+            P = [sym(f"§primal{i}") for i in range(len(primals))]
+            n0 = len(ev.events)
+            try:
+                ev.open_closure(f0, P, at_call=vj[0])
+            except AnalysisError:
+                pass
+            for e_ in ev.events[n0:]:
+                binding_ = None
+                if e_.kind == "enter_call":
+                    callee_, binding_ = e_.data
+                    callee_ok = callee_.name == helper
+                elif e_.kind == "call" and e_.data.op == "call" and e_.data.args[0].op == "attr":
+                    from ..model import bind_call
+                    f_, pos_, kws_ = call_parts(e_.data)
+                    callee_ok = f_.args[1] == helper
+                    ok_, _, mp_ = bind_call(hf, len(pos_), list(kws_), True)
+                    binding_ = [(h_, pos_[m_[1]] if m_[0] == "pos" else kws_[m_[1]]) for h_, m_ in mp_.items()] if ok_ else []
+                if binding_ is not None:
+                    for h_, v_ in binding_:
+                        if h_ == "self":
+                            continue
+                        hit = [i for i, q in enumerate(P) if q is v_]
+                        if hit:
+                            full[h_], diff_index[h_] = primals[hit[0]], hit[0]
+                        else:
+                            full[h_] = v_
+                    break
+            okn = all(h_ in full for h_ in hparams)
+        else:
+            okn = False
         ctx.ob("BIND-2", f"wave_function_auto.{meth}: differentiates {helper}", callee_ok,
                f"vjp of {show(f0, maxdepth=1)}", fi)
-        primals = pos[1:]
-        hparams = [x.name for x in hf.params if x.name != "self"]
-        okn = len(primals) == len(hparams)
         ctx.ob("BIND-2", f"wave_function_auto.{meth}: primal count matches {helper}", okn,
                f"{len(primals)} primals for parameters {hparams}", fi)
-        if not okn:
+        if not okn or not callee_ok:
             continue
         # which parameter of the helper is contracted with the Cholesky vectors?
         hev = Evaluator(p)
@@ -142,7 +181,11 @@ def cotangent(ctx):
                         field_param = vecs[0].args[0]
         if field_param is None:
             raise AnalysisError(f"{helper}: cannot identify the field-coefficient parameter")
-        want = hparams.index(field_param)
+        want = diff_index.get(field_param)
+        if want is None:
+            ctx.ob("BIND-2", f"wave_function_auto.{meth}: cotangent index selects the field coefficients", False,
+                   f"the field coefficients (parameter '{field_param}') are not among the differentiated primals", fi)
+            continue
         # result == grad(seed)[idx] / val
         m = m_binop(R, "/")
         ok_div = m is not None and strip_wrappers(m[1]) is getitem(vj[0], const(0))
@@ -164,7 +207,8 @@ def cotangent(ctx):
                     if x.op == "const":
                         vals.append(complex(x.args[0]))
                 seed_ok = bool(vals) and sum(vals) == 1
-            why = (f"cotangent index {idx} selects parameter '{hparams[idx] if idx < len(hparams) else '?'}'"
+            sel_ = [h_ for h_, i_ in diff_index.items() if i_ == idx]
+            why = (f"cotangent index {idx} selects parameter '{sel_[0] if sel_ else '?'}'"
                    f"; the field coefficients are parameter '{field_param}' (index {want})")
         else:
             why = f"result numerator is {show(num, maxdepth=2)[:80]}"
@@ -173,7 +217,7 @@ def cotangent(ctx):
         ctx.ob("BIND-2", f"wave_function_auto.{meth}: unit cotangent", seed_ok, "seed 1.0 + 0.0j" if seed_ok
                else "cotangent seed is not 1", fi)
         # primal for the field coefficients: zeros(chol.shape[0])
-        x0 = strip_wrappers(primals[want])
+        x0 = strip_wrappers(full[field_param])
         zs = [t for t in subterms(x0) if t.op == "call" and array_fn(t) in ("zeros", "zeros_like")]
         z_ok = False
         if len(zs) == 1:
